@@ -1,4 +1,5 @@
 import JominiModel.Model.TextReader
+import JominiModel.Proofs.TextReaderFast
 /-
 C20 (text reader): invariants of the streaming reader that hold under EVERY schedule, fault steps included.
 `C20_*` theorems live here so that the coordinator can re-export them from Props/C20.lean.
@@ -90,16 +91,25 @@ theorem Inv.fill {data : Bytes} {r : Reader} (h : Inv data r) : Inv data (fillBu
         rw [List.take_add, ← hw, List.drop_drop, h.rest]
         congr 3; omega
 
-/-- a result of a reader call keeps the invariant -/
-def ResInv {α : Type} (data : Bytes) : Res α → Prop
-  | .ok r _ => Inv data r
-  | .err r _ => Inv data r
+/-- a property `P` of readers that every primitive step preserves, and a property `E` of the errors that can arise -/
+structure Closed (P : Reader → Prop) (E : Err → Prop) : Prop where
+  adv : ∀ {r r' : Reader} {k : Nat}, P r → advance r k = some r' → P r'
+  bom : ∀ {r : Reader} (b : Bom), P r → P { r with bom := b }
+  fill : ∀ {r : Reader}, P r → P (fillBuf r).1
+  full : ∀ {r : Reader}, P r → (fillBuf r).2 = .full → E .full
+  io : ∀ {r : Reader}, P r → (fillBuf r).2 = .io → E .io
+  eof : E .eof
+
+/-- a result of a reader call keeps `P`, and an error it reports satisfies `E` -/
+def ResP {α : Type} (P : Reader → Prop) (E : Err → Prop) : Res α → Prop
+  | .ok r _ => P r
+  | .err r e => P r ∧ E e
   | _ => True
 
-theorem run_inv (data : Bytes) : ∀ (fuel : Nat) (call : Call) (r : Reader), Inv data r → ResInv data (run fuel call r) := by
+theorem run_inv {P : Reader → Prop} {E : Err → Prop} (c : Closed P E) : ∀ (fuel : Nat) (call : Call) (r : Reader), P r → ResP P E (run fuel call r) := by
   intro fuel
   induction fuel with
-  | zero => intro call r _; simp [run, ResInv]
+  | zero => intro call r _; simp [run, ResP]
   | succ f ih =>
     intro call r h
     cases call with
@@ -111,38 +121,40 @@ theorem run_inv (data : Bytes) : ∀ (fuel : Nat) (call : Call) (r : Reader), In
       | tok adv t =>
         simp only
         cases ha : advance { r with bom := bom } adv with
-        | none => simp [ResInv]
-        | some r' => simp only [ResInv]; exact (h.setBom bom).advance ha
-      | refill st c o => exact ih _ _ (h.setBom bom)
+        | none => simp [ResP]
+        | some r' => simp only [ResP]; exact c.adv (c.bom bom h) ha
+      | refill st cc o => exact ih _ _ (c.bom bom h)
       | bomFill =>
         simp only
-        have hf := (h.setBom bom).fill
-        generalize fillBuf { r with bom := bom } = fr at hf
+        have hf := c.fill (c.bom bom h)
+        generalize hfr : fillBuf { r with bom := bom } = fr at hf
+        have hP0 := c.bom bom h
         obtain ⟨r', fl⟩ := fr
         simp only at hf
         cases fl with
         | ok n =>
           cases n with
-          | zero => exact ih _ _ (hf.setBom _)
+          | zero => exact ih _ _ (c.bom _ hf)
           | succ n => exact ih _ _ hf
-        | full => simp only [ResInv]; exact hf
-        | io => simp only [ResInv]; exact hf
+        | full => exact ⟨hf, c.full hP0 (by rw [hfr])⟩
+        | io => exact ⟨hf, c.io hP0 (by rw [hfr])⟩
     | refill st carry off =>
       rw [run]
       cases ha : advance r (r.win.length - carry) with
-      | none => simp [ResInv]
+      | none => simp [ResP]
       | some r0 =>
         simp only
         split
-        · simp [ResInv]
-        · have h0 := h.advance ha
-          have hf := h0.fill
-          generalize fillBuf r0 = fr at hf
+        · simp [ResP]
+        · have h0 := c.adv h ha
+          have hf := c.fill h0
+          generalize hfr : fillBuf r0 = fr at hf
+          have hP0 := h0
           obtain ⟨r1, fl⟩ := fr
           simp only at hf
           cases fl with
-          | full => simp only [ResInv]; exact hf
-          | io => simp only [ResInv]; exact hf
+          | full => exact ⟨hf, c.full hP0 (by rw [hfr])⟩
+          | io => exact ⟨hf, c.io hP0 (by rw [hfr])⟩
           | ok n =>
             cases n with
             | zero =>
@@ -151,22 +163,22 @@ theorem run_inv (data : Bytes) : ∀ (fuel : Nat) (call : Call) (r : Reader), In
               | none =>
                 simp only
                 split
-                · simp only [ResInv]; exact hf
+                · first | exact hf | exact ⟨hf, c.eof⟩
                 · split
-                  · simp [ResInv]
+                  · simp [ResP]
                   · split
                     · cases ha2 : advance r1 carry with
-                      | none => simp [ResInv]
-                      | some r2 => simp only [ResInv]; exact hf.advance ha2
-                    · simp only [ResInv]; exact hf
-              | quote => simp only [ResInv]; exact hf
+                      | none => simp [ResP]
+                      | some r2 => simp only [ResP]; exact c.adv hf ha2
+                    · first | exact hf | exact ⟨hf, c.eof⟩
+              | quote => first | exact hf | exact ⟨hf, c.eof⟩
               | unquoted =>
                 simp only
                 split
-                · simp [ResInv]
+                · simp [ResP]
                 · cases ha2 : advance r1 r1.win.length with
-                  | none => simp [ResInv]
-                  | some r2 => simp only [ResInv]; exact hf.advance ha2
+                  | none => simp [ResP]
+                  | some r2 => simp only [ResP]; exact c.adv hf ha2
             | succ n =>
               simp only
               cases st with
@@ -176,16 +188,16 @@ theorem run_inv (data : Bytes) : ∀ (fuel : Nat) (call : Call) (r : Reader), In
                 split
                 · rename_i m _
                   cases ha2 : advance r1 (m + 1) with
-                  | none => simp [ResInv]
-                  | some r2 => simp only [ResInv]; exact hf.advance ha2
+                  | none => simp [ResP]
+                  | some r2 => simp only [ResP]; exact c.adv hf ha2
                 · exact ih _ _ hf
               | unquoted =>
                 simp only
                 split
                 · rename_i m _
                   cases ha2 : advance r1 m with
-                  | none => simp [ResInv]
-                  | some r2 => simp only [ResInv]; exact hf.advance ha2
+                  | none => simp [ResP]
+                  | some r2 => simp only [ResP]; exact c.adv hf ha2
                 · exact ih _ _ hf
 
 end Jomini.TextReader
@@ -193,159 +205,231 @@ end Jomini.TextReader
 namespace Jomini.TextReader
 open Jomini
 
-theorem nextOpt_inv (data : Bytes) (fuel : Nat) (r : Reader) (h : Inv data r) : ResInv data (nextOpt fuel r) := by
+theorem nextOpt_inv {P : Reader → Prop} {E : Err → Prop} (c : Closed P E) (fuel : Nat) (r : Reader) (h : P r) : ResP P E (nextOpt fuel r) := by
   unfold nextOpt
   simp only
   split
-  · exact run_inv data fuel .fallback r h
+  · exact run_inv c fuel .fallback r h
   · split
-    · simp [ResInv]
+    · simp [ResP]
     · split
-      · simp [ResInv]
+      · simp [ResP]
       · split
         · cases ha : advance r (leadingWhitespace _ + 1) with
-          | none => simp [ResInv]
-          | some r' => simp only [ResInv]; exact h.advance ha
+          | none => simp [ResP]
+          | some r' => simp only [ResP]; exact c.adv h ha
         · split
           · cases ha : advance r (leadingWhitespace _ + 1) with
-            | none => simp [ResInv]
-            | some r' => simp only [ResInv]; exact h.advance ha
+            | none => simp [ResP]
+            | some r' => simp only [ResP]; exact c.adv h ha
           · split
             · split
               · rename_i j c' _
                 cases ha : advance r (if c' == 32 then j + 1 else j) with
-                | none => simp [ResInv]
-                | some r' => simp only [ResInv]; exact h.advance ha
-              · exact run_inv data fuel .fallback r h
-              · simp [ResInv]
+                | none => simp [ResP]
+                | some r' => simp only [ResP]; exact c.adv h ha
+              · exact run_inv c fuel .fallback r h
+              · simp [ResP]
             · split
               · split
                 · rename_i j _ _
                   cases ha : advance r (j + 1) with
-                  | none => simp [ResInv]
-                  | some r' => simp only [ResInv]; exact h.advance ha
-                · exact run_inv data fuel .fallback r h
-                · simp [ResInv]
-              · exact run_inv data fuel .fallback r h
+                  | none => simp [ResP]
+                  | some r' => simp only [ResP]; exact c.adv h ha
+                · exact run_inv c fuel .fallback r h
+                · simp [ResP]
+              · exact run_inv c fuel .fallback r h
 
-theorem read_inv (data : Bytes) (fuel : Nat) (r : Reader) (h : Inv data r) : ResInv data (read fuel r) := by
-  have := nextOpt_inv data fuel r h
+theorem read_inv {P : Reader → Prop} {E : Err → Prop} (c : Closed P E) (fuel : Nat) (r : Reader) (h : P r) : ResP P E (read fuel r) := by
+  have := nextOpt_inv c fuel r h
   unfold read
   cases hn : nextOpt fuel r with
-  | ok r' a => rw [hn] at this; cases a <;> simpa [ResInv] using this
-  | err r' e => rw [hn] at this; simpa [ResInv] using this
-  | panic => simp [ResInv]
-  | ub => simp [ResInv]
-  | fuel => simp [ResInv]
+  | ok r' a =>
+    rw [hn] at this
+    cases a with
+    | none => exact ⟨this, c.eof⟩
+    | some t => exact this
+  | err r' e => rw [hn] at this; exact this
+  | panic => simp [ResP]
+  | ub => simp [ResP]
+  | fuel => simp [ResP]
 
-theorem readBytes_inv (data : Bytes) : ∀ (fuel : Nat) (r : Reader) (n : Nat), Inv data r → ResInv data (readBytes fuel r n) := by
+theorem readBytes_inv {P : Reader → Prop} {E : Err → Prop} (c : Closed P E) : ∀ (fuel : Nat) (r : Reader) (n : Nat), P r → ResP P E (readBytes fuel r n) := by
   intro fuel
   induction fuel with
-  | zero => intro r n _; simp [readBytes, ResInv]
+  | zero => intro r n _; simp [readBytes, ResP]
   | succ f ih =>
     intro r n h
     rw [readBytes]
     split
-    · have hf := h.fill
-      generalize fillBuf r = fr at hf
+    · have hf := c.fill h
+      generalize hfr : fillBuf r = fr at hf
+      have hP0 := h
       obtain ⟨r1, fl⟩ := fr
       simp only at hf
       cases fl with
-      | full => simp only [ResInv]; exact hf
-      | io => simp only [ResInv]; exact hf
+      | full => exact ⟨hf, c.full hP0 (by rw [hfr])⟩
+      | io => exact ⟨hf, c.io hP0 (by rw [hfr])⟩
       | ok k =>
         cases k with
-        | zero => simp only [ResInv]; exact hf
+        | zero => first | exact hf | exact ⟨hf, c.eof⟩
         | succ k => exact ih _ _ hf
     · cases ha : advance r n with
-      | none => simp [ResInv]
-      | some r' => simp only [ResInv]; exact h.advance ha
+      | none => simp [ResP]
+      | some r' => simp only [ResP]; exact c.adv h ha
 
-theorem skipLoop_inv (data : Bytes) : ∀ (fuel : Nat) (r : Reader) (st : SkipSt) (depth : Int) (ptr : Nat),
-    Inv data r → ResInv data (skipLoop fuel r st depth ptr) := by
+theorem skipLoop_inv {P : Reader → Prop} {E : Err → Prop} (c : Closed P E) : ∀ (fuel : Nat) (r : Reader) (st : SkipSt) (depth : Int) (ptr : Nat),
+    P r → ResP P E (skipLoop fuel r st depth ptr) := by
   intro fuel
   induction fuel with
-  | zero => intro r st depth ptr _; simp [skipLoop, ResInv]
+  | zero => intro r st depth ptr _; simp [skipLoop, ResP]
   | succ f ih =>
     intro r st depth ptr h
     rw [skipLoop]
     split
     · rename_i p _
       cases ha : advance r p with
-      | none => simp [ResInv]
-      | some r' => simp only [ResInv]; exact h.advance ha
+      | none => simp [ResP]
+      | some r' => simp only [ResP]; exact c.adv h ha
     · rename_i st' depth' p _
       cases ha : advance r p with
-      | none => simp [ResInv]
+      | none => simp [ResP]
       | some r0 =>
         simp only
-        have hf := (h.advance ha).fill
-        generalize fillBuf r0 = fr at hf
+        have h0 := c.adv h ha
+        have hf := c.fill h0
+        generalize hfr : fillBuf r0 = fr at hf
+        have hP0 := h0
         obtain ⟨r1, fl⟩ := fr
         simp only at hf
         cases fl with
-        | full => simp only [ResInv]; exact hf
-        | io => simp only [ResInv]; exact hf
+        | full => exact ⟨hf, c.full hP0 (by rw [hfr])⟩
+        | io => exact ⟨hf, c.io hP0 (by rw [hfr])⟩
         | ok k =>
           cases k with
-          | zero => simp only [ResInv]; exact hf
+          | zero => first | exact hf | exact ⟨hf, c.eof⟩
           | succ k => exact ih _ _ _ _ hf
-    · simp [ResInv]
-    · simp [ResInv]
+    · simp [ResP]
+    · simp [ResP]
 
-theorem skipContainer_inv (data : Bytes) (fuel : Nat) (r : Reader) (h : Inv data r) :
-    ResInv data (skipContainer fuel r) := skipLoop_inv data fuel r .none 1 0 h
+theorem skipContainer_inv {P : Reader → Prop} {E : Err → Prop} (c : Closed P E) (fuel : Nat) (r : Reader) (h : P r) :
+    ResP P E (skipContainer fuel r) := skipLoop_inv c fuel r .none 1 0 h
 
-theorem skipUnquotedValue_inv (data : Bytes) : ∀ (fuel : Nat) (r : Reader), Inv data r →
-    ResInv data (skipUnquotedValue fuel r) := by
+theorem skipUnquotedValue_inv {P : Reader → Prop} {E : Err → Prop} (c : Closed P E) : ∀ (fuel : Nat) (r : Reader), P r →
+    ResP P E (skipUnquotedValue fuel r) := by
   intro fuel
   induction fuel with
-  | zero => intro r _; simp [skipUnquotedValue, ResInv]
+  | zero => intro r _; simp [skipUnquotedValue, ResP]
   | succ f ih =>
     intro r h
     rw [skipUnquotedValue]
     split
     · rename_i p _
       cases ha : advance r (p + 1) with
-      | none => simp [ResInv]
-      | some r' => simp only; exact skipContainer_inv data (f + 1) r' (h.advance ha)
-    · simp only [ResInv]; exact h
+      | none => simp [ResP]
+      | some r' => simp only; exact skipContainer_inv c (f + 1) r' (c.adv h ha)
+    · simp only [ResP]; exact h
     · cases ha : advance r r.win.length with
-      | none => simp [ResInv]
+      | none => simp [ResP]
       | some r0 =>
         simp only
-        have hf := (h.advance ha).fill
-        generalize fillBuf r0 = fr at hf
+        have h0 := c.adv h ha
+        have hf := c.fill h0
+        generalize hfr : fillBuf r0 = fr at hf
+        have hP0 := h0
         obtain ⟨r1, fl⟩ := fr
         simp only at hf
         cases fl with
-        | full => simp only [ResInv]; exact hf
-        | io => simp only [ResInv]; exact hf
+        | full => exact ⟨hf, c.full hP0 (by rw [hfr])⟩
+        | io => exact ⟨hf, c.io hP0 (by rw [hfr])⟩
         | ok k =>
           cases k with
-          | zero => simp only [ResInv]; exact hf
+          | zero => first | exact hf | exact ⟨hf, c.eof⟩
           | succ k => exact ih _ hf
 
-theorem lexAll_inv (data : Bytes) (fuel : Nat) : ∀ (n : Nat) (r : Reader) (acc : List Token), Inv data r →
-    Inv data (lexAll fuel n r acc).final := by
+theorem lexAll_inv {P : Reader → Prop} {E : Err → Prop} (c : Closed P E) (fuel : Nat) : ∀ (n : Nat) (r : Reader) (acc : List Token), P r →
+    P (lexAll fuel n r acc).final ∧ ∀ e, (lexAll fuel n r acc).out = .err e → E e := by
   intro n
   induction n with
-  | zero => intro r acc h; simpa [lexAll] using h
+  | zero => intro r acc h; simp [lexAll]; exact h
   | succ n ih =>
     intro r acc h
-    have hn := nextOpt_inv data fuel r h
+    have hn := nextOpt_inv c fuel r h
     rw [lexAll]
     unfold next
     cases hx : nextOpt fuel r with
     | ok r' a =>
       rw [hx] at hn
       cases a with
-      | none => simpa [ResInv] using hn
-      | some t => simp only; exact ih r' _ (by simpa [ResInv] using hn)
-    | err r' e => rw [hx] at hn; simpa [ResInv] using hn
-    | panic => simpa using h
-    | ub => simpa using h
-    | fuel => simpa using h
+      | none => simp only; exact ⟨hn, fun e he => by simp at he⟩
+      | some t => simp only; exact ih r' _ hn
+    | err r' e =>
+      rw [hx] at hn
+      simp only
+      refine ⟨hn.1, fun e' he => ?_⟩
+      simp only [Outcome.err.injEq] at he
+      rw [← he]; exact hn.2
+    | panic => simp only; exact ⟨h, fun e he => by simp at he⟩
+    | ub => simp only; exact ⟨h, fun e he => by simp at he⟩
+    | fuel => simp only; exact ⟨h, fun e he => by simp at he⟩
+
+/-- the window/position invariant is closed under the primitive steps -/
+theorem Inv_closed (data : Bytes) : Closed (Inv data) (fun _ => True) :=
+  { adv := fun h ha => h.advance ha, bom := fun b h => h.setBom b, fill := fun h => h.fill,
+    full := fun _ _ => trivial, io := fun _ _ => trivial, eof := trivial }
+
+/-- a fault-free schedule stays fault-free, and `fill_buf` then never reports an I/O error -/
+theorem NoFaults_closed : Closed (fun r => NoFaults r.src.sched) (fun e => e ≠ .io) := by
+  have key : ∀ (s : Src) (space : Nat), NoFaults s.sched →
+      NoFaults (s.read space).1.sched ∧ (s.read space).2 ≠ none := by
+    intro s space hnf
+    unfold Src.read
+    cases hs : s.sched with
+    | nil => exact ⟨by intro x hx; simp at hx, by simp⟩
+    | cons st t =>
+      have h1 := hnf st (by simp [hs])
+      have ht : NoFaults t := fun x hx => hnf x (by simp [hs, hx])
+      cases st with
+      | give n => exact ⟨ht, by simp⟩
+      | repeat_ n => exact ⟨by intro x hx; exact hnf x (by rw [hs]; exact hx), by simp⟩
+      | fail => exact absurd rfl h1.1
+      | failForever => exact absurd rfl h1.2
+  refine { adv := ?_, bom := fun _ h => h, fill := ?_, full := fun _ _ => by simp, io := ?_, eof := by simp }
+  · intro r r' k h ha
+    unfold TextReader.advance at ha
+    split at ha
+    · simp only [Option.some.injEq] at ha; subst ha; exact h
+    · simp at ha
+  · intro r h
+    unfold fillBuf
+    split
+    · exact h
+    · split
+      · exact h
+      · have := key r.src (r.cap - r.win.length) h
+        generalize r.src.read (r.cap - r.win.length) = res at this
+        obtain ⟨src', ob⟩ := res
+        cases ob with
+        | none => exact absurd rfl this.2
+        | some bs => exact this.1
+  · intro r h hio
+    unfold fillBuf at hio
+    split at hio
+    · simp at hio
+    · split at hio
+      · simp at hio
+      · have := key r.src (r.cap - r.win.length) h
+        generalize r.src.read (r.cap - r.win.length) = res at this hio
+        obtain ⟨src', ob⟩ := res
+        cases ob with
+        | none => exact absurd rfl this.2
+        | some bs => simp at hio
+
+/-- with a fault-free schedule the streamed run never ends in an I/O error -/
+theorem lexAll_no_io (cap : Nat) (sched : List Step) (data : Bytes) (fuel n : Nat) (hnf : NoFaults sched) :
+    (lexAll fuel n (fromReader cap sched data) []).out ≠ .err .io := by
+  intro h
+  exact (lexAll_inv NoFaults_closed fuel n (fromReader cap sched data) [] (by simpa [fromReader] using hnf)).2 _ h rfl
 
 /-- **C20 (text reader), partial: what holds under every schedule, fault steps included.**
 Whatever the `Read` does — short reads down to one byte, transient failures, a persistent failure — after any
@@ -364,11 +448,49 @@ theorem C20_text_reader_partial (cap : Nat) (hc : 0 < cap) (sched : List Step) (
     fin.win = (data.drop fin.position).take (fin.src.delivered - fin.position) ∧
     fin.src.rest = data.drop fin.src.delivered ∧ fin.src.delivered ≤ data.length := by
   intro fin
-  have h : Inv data fin := lexAll_inv data fuel n (fromReader cap sched data) [] (Inv.start cap hc sched data)
+  have h : Inv data fin := (lexAll_inv (Inv_closed data) fuel n (fromReader cap sched data) [] (Inv.start cap hc sched data)).1
   have hp := h.pos
   refine ⟨by omega, ?_, h.rest, by have := h.del; omega⟩
   have : fin.src.delivered - fin.position = fin.win.length := by omega
   rw [this]; exact h.win
+
+/-- **C20 (text reader): I/O failures surface as errors, never as silently wrong results.**
+For every input, every buffer capacity ≥ 1 and EVERY read schedule — short reads down to one byte, transient failures
+(`fail`), a persistent failure (`failForever`), in any positions — the sequence of `next` calls (stopping at the first
+error) either
+
+* stops with an I/O error or `BufferFull`, after having returned a PREFIX of the fault-free (from-slice) token sequence:
+  no call completed successfully with a result different from the fault-free one; or
+* returns exactly the from-slice token sequence and ends in the same outcome, with the final position at the input length
+  at a clean end (the faults were never reached).
+
+Moreover a fault-free schedule never produces an I/O error.  (Position ≤ delivered and the window invariant:
+`C20_text_reader_partial`.  Not proved here: that a *reached* persistent fault always ends in an error — immediate from
+`Rel.fill`'s first alternative for a single call, but not stated for whole runs —, and the same clauses for
+`skip_container` / `read_bytes`; those are decided by the correspondence run and the fault oracles.) -/
+theorem C20_text_reader (data : Bytes) (cap : Nat) (sched : List Step) (hcap : 0 < cap) (hw : WfSched sched) :
+    ((StopErr (streamTokens cap sched data).out ∧ (streamTokens cap sched data).toks <+: (sliceTokens data).toks) ∨
+     ((streamTokens cap sched data).toks = (sliceTokens data).toks ∧
+      (streamTokens cap sched data).out = (sliceTokens data).out ∧
+      ((streamTokens cap sched data).out = .end_ → (streamTokens cap sched data).final.position = data.length))) ∧
+    (NoFaults sched → (streamTokens cap sched data).out ≠ .err .io) := by
+  have h1 : Rel (fromReader cap sched data) 0 .unknown data :=
+    ⟨rfl, rfl, by simp [fromReader], hw, by intro h; simp [fromReader] at h; omega⟩
+  have h2 : Rel (fromSlice data) 0 .unknown data :=
+    ⟨rfl, rfl, by simp [fromSlice], by intro x hx; simp [fromSlice] at hx, fun _ => rfl⟩
+  have := lexAll_vs_slice (fuelFor data) _ _ 0 .unknown data (fuelFor data + 2 * sched.length) (fuelFor data) []
+    (Or.inl h1) (Or.inl h2) rfl (by simp [fuelFor]; omega) (by simp [fuelFor])
+  refine ⟨?_, fun hnf => lexAll_no_io cap sched data _ _ hnf⟩
+  rcases this with ⟨a, b, _⟩ | ⟨a, b, c⟩
+  · left; exact ⟨a, b⟩
+  · right
+    refine ⟨a, b, fun he => ?_⟩
+    have := (c he).1
+    simpa [streamTokens] using this
+
+-- the hypotheses are satisfiable with faults in the schedule
+example : WfSched [.give 2, .fail, .give 1, .failForever] := by
+  intro x hx; simp at hx; rcases hx with rfl | rfl | rfl | rfl <;> simp [WfStep]
 
 -- a schedule with a transient and a persistent fault
 example : ((lexAll 50 10 (fromReader 8 [.give 2, .fail, .give 1, .failForever] [97, 61, 98, 32, 99]) []).out) = .err .io := by
